@@ -1,6 +1,7 @@
 package props
 
 import (
+	"os"
 	"fmt"
 	"go/token"
 	"go/types"
@@ -143,6 +144,9 @@ func C04(c *core.Ctx) {
 			nSinks++
 			perKind[s.Kind]++
 			v := spec.Bounded(p, fn, s)
+			if os.Getenv("NDNDCHECK_DEBUG") != "" {
+				fmt.Fprintf(os.Stderr, "DEBUG sink %s %s %s val=%v leaves=%v ok=%v %s\n", core.FuncName(fn), s.Kind, c.Pos(s.Instr), s.Val, s.Leaves, v.OK, v.Reason)
+			}
 			if v.OK {
 				nOK++
 				continue
